@@ -179,7 +179,8 @@ Record scen := {
   sc_started : bool; sc_trusted : bool; sc_pstate : N;
   sc_conn : option (N * bool);      (* SHIP state and error flag of the registered fake *)
   sc_counter : bool;
-  sc_others : nat                   (* further trusted services without connection *)
+  sc_others : nat;                  (* further trusted services without connection *)
+  sc_fresh : bool                   (* the hub has no record for the SKI yet: the operation's own lookup creates it *)
 }.
 
 Fixpoint other_svcs (n : nat) : list (bytes * svc) :=
@@ -190,12 +191,14 @@ Fixpoint other_svcs (n : nat) : list (bytes * svc) :=
 
 Definition hub_of (canon : bytes) (s : scen) : hub :=
   {| started := sc_started s;
-     svcs := (canon, {| trusted := sc_trusted s; pstate := sc_pstate s; perr := false |})
-               :: other_svcs (sc_others s);
-     conns := match sc_conn s with
+     svcs := (if sc_fresh s then []
+              else [(canon, {| trusted := sc_trusted s; pstate := sc_pstate s; perr := false |})])
+             ++ other_svcs (sc_others s);
+     conns := if sc_fresh s then [] else
+              match sc_conn s with
               | Some (st, e) => [(canon, {| cid := 1; cstate := st; cerr := e |})]
               | None => [] end;
-     counters := if sc_counter s then [(canon, 0)] else [] |}.
+     counters := if sc_fresh s then [] else if sc_counter s then [(canon, 0)] else [] |}.
 
 Inductive opk := KDetail | KRegister | KUnregister | KDisconnect | KCancel | KService.
 Definition mk_op (k : opk) (s : bytes) : op :=
